@@ -88,7 +88,7 @@ var Meta = map[string]PropMeta{
 	"C04": {
 		Level:     "fault_enumeration",
 		Technique: "deterministic simulation with fault injection: step invariant (old-or-new at every quiescent point = crash point at wire-token granularity), freeze (crash) and connection-cut faults at byte offsets of either direction, leftover-temp check after error returns",
-		Rule:      "one evaluation = one multi-file scenario (new files, replaced files, replaced symlinks, other types in the way; receiver = real client in A1/A3p, real daemon in A2/A3s) run fault-free with the atomicity invariant evaluated at every scheduler step, then re-run once per fault (cut of either direction / freeze of the receiving party at a byte offset drawn per-mille of the direction's volume; 6 faults per scenario quick, 30 thorough). Invariant: every listed path is its complete old content, its complete new content, or absent (absent only if it was absent or the type changes). After a cut: both ends return, connection closed, no non-listed entry may remain. Non-trivial = at least one regular file replaced over different content and > 20 steps",
+		Rule:      "one evaluation = one multi-file scenario (new files, replaced files, replaced symlinks, other types in the way; receiver = real client in A1/A3p, real daemon in A2/A3s) run fault-free with the atomicity invariant evaluated at every scheduler step, then re-run once per fault (cut of either direction / freeze of the receiving party at a byte offset drawn per-mille of the direction's volume; 6 faults per scenario quick, 30 thorough). Invariant: every listed path is its complete old content, its complete new content, or absent (absent only if it was absent or the type changes). After a cut: both ends return, connection closed, no non-listed entry may remain. In addition the kernel's inotify history of the destination is recorded for every run: a listed path that is replaced by an entry of the same type must never show a DELETE/MOVED_FROM event (this covers the instants between two system calls that the scheduler cannot stop at). Non-trivial = at least one regular file replaced over different content and > 20 steps",
 		Assumptions: []string{"crash points are quiescent points (receiver parked in Read at byte N); crashes between two syscalls of one goroutine are not sampled", "power-loss durability (un-fsynced data) is not simulated: no storage seam", "freeze + snapshot stands in for SIGKILL of a subprocess (directory contents are what survives a kill)"},
 		Real:      realCommon, Stub: stubCommon,
 		Quick:     q(150, 60*time.Second),
@@ -216,7 +216,7 @@ var Meta = map[string]PropMeta{
 	"C18": {
 		Level:     "exploration",
 		Technique: "deterministic simulation: seeded scheduler over the capacity/chunking/bias matrix with exact deadlock detection (no enabled transport action while operations are pending), stall faults, 2-32 concurrent sessions against one Server interleaved by one schedule tape; plus free-running sessions under the Go race detector at GOMAXPROCS 1/4/16",
-		Rule:      "term mode: one session A1/A2/A3/A4 with capacities from {0,1,7,64,64Ki,unbounded}^2 (daemon arrangements >= 12 bytes: both ends write their greeting first), chunking style, scheduling bias, optional stall fault, tree mixing tiny files / multi-MiB literals / multi-MiB bases; violation = deadlock or step-budget exhaustion. multi mode: 2-32 concurrent pulls/uploads (distinct and identical targets) via Server.Serve(simulated listener); every session must succeed and its result must equal the same session run alone; a quarter of the workers run the free-running variant in a -race build. Non-trivial = more than 50 scheduler steps (term) or >= 2 sessions on a non-empty tree (multi)",
+		Rule:      "term mode: one session A1/A2/A3/A4 with capacities from {0,1,7,64,64Ki,unbounded}^2 (daemon arrangements >= 12 bytes: both ends write their greeting first), chunking style, scheduling bias, optional stall fault, tree mixing tiny files / multi-MiB literals / multi-MiB bases; violation = deadlock or step-budget exhaustion, or a session that ends with an error under the drawn transport although it succeeds on the canonical one (schedule independence); in a quarter of the runs one literal data byte is damaged in flight (located by decoding a fault-free run) and the session must still complete with an error (error-path termination). multi mode: 2-32 concurrent pulls/uploads (distinct and identical targets) via Server.Serve(simulated listener); every session must succeed and its result must equal the same session run alone; a quarter of the workers run the free-running variant in a -race build, and a third of the multi runs on ordinary workers are free-running too (40-200 directories, 4-11 identical uploads to one fresh target) so that handlers really overlap between system calls. Non-trivial = more than 50 scheduler steps (term) or >= 2 sessions on a non-empty tree (multi)",
 		Assumptions: []string{"race detection is happens-before analysis on free-running in-memory transports (not schedule search): the deterministic scheduler would add happens-before edges", "A4 interleaving is chosen by the Go runtime; hang detection there is exact via synctest quiescence", "capacities below 12 bytes are not generated for daemon arrangements (greeting deadlock is protocol-inherent)"},
 		Real:      realCommon, Stub: stubCommon,
 		Quick:     q(300, 60*time.Second),
